@@ -3,6 +3,10 @@ PLAN_ENTRY = {'stages': [
         # growth beyond the listed properties (never a verdict): vertex-to-vertex navigation of stations as a state machine
         {'name': 'station_navigation', 'extra': True,
          'mc': [{'module': 'MC_StationNav', 'cfg': {'quick': 'MC_StationNav.cfg', 'thorough': 'MC_StationNav.cfg'}, 'workers': 2}],
+         # unbounded: Apalache checks that IndInv of NavInd.tla is inductive for every number of vertices (and implies the step bound)
+         'proofs': [{'module': 'NavInd', 'tool': 'apalache', 'runs': [['--init=Init', '--inv=IndInv', '--length=0'],
+                                                                       ['--init=IndInit', '--inv=IndInv', '--length=1'],
+                                                                       ['--init=IndInit', '--inv=Bounded', '--length=0']]}],
          'gens': ['gen_nav'], 'trace': 'Trace_StationNav'},
         {'name': 'stations', 'mc': [{'module': 'MC_C01', 'cfg': {'quick': 'MC_C01_quick.cfg', 'thorough': 'MC_C01_thorough.cfg'}, 'workers': 8}], 'gens': ['gen_c01_random'], 'trace': 'Trace_Curve'}], 'assumptions': ['TLC evaluates the L1 operators of Curve.tla correctly (exact integer arithmetic)', 'harness projection: coordinates/lengths quantised to 2^-16 lattice units, directions to 2^-14, infinitesimals realised as next_up/next_down', 'edges have integer length (axis-parallel / Pythagorean) times a power-of-two scale; irrational edge lengths are outside the exact domain']}
 
